@@ -36,13 +36,19 @@ def run_s(rep, items, tier, kinds=None, wall_budget_s=None):
         conf = [f for f in fs if f["confirmed"]]
         for f in conf:
             text = "%s: %s | %s" % (r["name"], f["detail"], "; ".join((f["native"] or {}).get("why", [])[:3]))
-            body = "# skeleton: %s\n# replay: ./check %s --replay <this file>\n" % (r["skel"].replace("\n", " "), rep.prop)
-            if f.get("variant_source"):
+            skel_txt = " || ".join(r["skel"]) if isinstance(r["skel"], list) else r["skel"]
+            body = "# skeleton: %s\n# replay: ./check %s --replay <this file>\n" % (skel_txt.replace("\n", " "), rep.prop)
+            if f["kind"] == "session":
+                body += "### SESSION (one line per retained evaluation)\n%s\n" % f["source"].replace("\x01", "\n")
+            elif f.get("variant_source"):
                 body += "### PROGRAM\n%s\n### VARIANT\n%s\n" % (f["source"], f["variant_source"])
             else:
                 body += "### PROGRAM\n%s\n" % f["source"]
             body += "### NATIVE\n%r\n" % (f["native"],)
-            rep.violation("skel=%s:%s" % (r["name"], f["kind"]), text, body)
+            key = "skel=%s:%s" % (r["name"], f["kind"])
+            if f.get("role", "").startswith("session:"):
+                key = f["role"]
+            rep.violation(key, text, body)
         if fs and not conf:
             f = fs[0]
             rep.unreproduced("candidate on %s (%s: %s; program %r) did not reproduce against the real interpreter" % (
@@ -135,32 +141,51 @@ def pairs(pred=None):
     return [x for x in sk.fam_pairs() if pred is None or pred(x[0])]
 
 
+def sessions(n, seed=0, rnd_n=0, rnd_len=5):
+    from .nlsym import skeletons as sk
+    return sk.fam_sessions(n) + (sk.fam_sessions_random(seed, rnd_n, rnd_len) if rnd_n else [])
+
+
 PROPS = {
     "C15": run_C15,
     "C01": s_property("C01", "translation_validation",
                       lambda seed: fams("compose", "control", "calls", "scoping", "sequences", "builtins", "boundary") + exh(2) + rnd(seed, 60),
                       lambda seed: fams("compose", "control", "calls", "scoping", "sequences", "builtins", "boundary", "operator_forms")
-                      + exh(3) + rnd(seed, 600)),
+                      + exh(3) + rnd(seed, 600), k=True),
     "C02": s_property("C02", "translation_validation",
                       lambda seed: fams("control", "calls", "scoping", "boundary", "sequences") + exh(2) + rnd(seed, 40),
                       lambda seed: fams("control", "calls", "scoping", "boundary", "sequences", "compose", "undeclared") + exh(3) + rnd(seed, 600),
-                      kinds=("unsafe", "typing", "residue", "witness")),
+                      k=True, kinds=("unsafe", "typing", "residue", "witness")),
+    "C05": s_property("C05", "translation_validation",
+                      lambda seed: fams("boundary", "builtins") + [x for x in fams("operator_forms") if ":mixed:" in x[0] or ":same:" in x[0]],
+                      lambda seed: fams("boundary", "builtins", "operator_forms", "sequences") + rnd(seed, 300), k=True,
+                      extra_assume=["claimed for the BACK END only: lexing/parsing as functions of arbitrary text (token noise, truncations, termination of the parser loops) "
+                                    "cannot be executed symbolically here (DESIGN.md 1) and are outside the claim"]),
     "C09": s_property("C09", "translation_validation",
                       lambda seed: fams("scoping", "undeclared") + rnd(seed, 30),
-                      lambda seed: fams("scoping", "undeclared", "calls") + exh(3) + rnd(seed, 300)),
+                      lambda seed: fams("scoping", "undeclared", "calls") + exh(3) + rnd(seed, 300), k=True),
     "C11": s_property("C11", "translation_validation",
                       lambda seed: fams("control") + rnd(seed, 30),
-                      lambda seed: fams("control") + exh(3) + rnd(seed, 400)),
+                      lambda seed: fams("control") + exh(3) + rnd(seed, 400), k=True),
     "C12": s_property("C12", "translation_validation",
                       lambda seed: fams("calls") + rnd(seed, 40),
-                      lambda seed: fams("calls", "scoping") + rnd(seed, 400)),
-    "C13": s_property("C13", "translation_validation",
+                      lambda seed: fams("calls", "scoping") + rnd(seed, 400), k=True),
+    "C13": s_property("C13", "model_checking",
                       lambda seed: fams("sequences"),
-                      lambda seed: fams("sequences", "compose") + rnd(seed, 200)),
+                      lambda seed: fams("sequences", "compose") + rnd(seed, 200), k=True),
+    "C14": s_property("C14", "model_checking",
+                      lambda seed: fams("builtins") + [x for x in fams("boundary") if "int-of" in x[0] or "float-of" in x[0] or "builtin" in x[0] or "string-of" in x[0] or "bool-of" in x[0]]
+                      + [x for x in fams("compose") if "print" in x[0] or "builtins" in x[0] or "float-int" in x[0]],
+                      lambda seed: fams("builtins", "boundary", "compose"), k=True,
+                      extra_assume=["outside the claim: float <-> text (Grisu / dec2flt on symbolic input), print's substitution on symbolic TEXT, text -> number on symbolic text; "
+                                    "these are exercised on concrete literals by Engine S only"]),
     "C10": s_property("C10", "translation_validation",
                       lambda seed: pairs(),
-                      lambda seed: pairs(),
+                      lambda seed: pairs(), k=True,
                       kinds=("pair",)),
+    "C17": s_property("C17", "translation_validation",
+                      lambda seed: sessions(3, seed, 200, 4),
+                      lambda seed: sessions(3, seed, 3000, 6), k=True, kinds=("session",)),
     "C06": s_property("C06", "model_checking",
                       lambda seed: fams("operator_forms"),
                       lambda seed: fams("operator_forms"), k=True),
